@@ -125,3 +125,32 @@ func RunAgainstScriptedClient(scfg *gmtls.Config, co rgmssl.ClientOpts, plan *rg
 	}
 	return res
 }
+
+// RunServerAgainst: gmtls server vs an arbitrary scripted client function talking over the in-memory transport.
+func RunServerAgainst(scfg *gmtls.Config, send []byte, client func(rw *wire.Conn) error) *ScriptedResult {
+	hub := wire.NewHub()
+	cw, sw := hub.Pipe("client:1", "server:443")
+	res := &ScriptedResult{}
+	cw.TapOut(func(b []byte) {
+		res.C2S = append(res.C2S, b...)
+		res.Log = append(res.Log, rgmssl.Chunk{FromClient: true, Data: append([]byte(nil), b...)})
+	})
+	sw.TapOut(func(b []byte) {
+		res.S2C = append(res.S2C, b...)
+		res.Log = append(res.Log, rgmssl.Chunk{FromClient: false, Data: append([]byte(nil), b...)})
+	})
+	closeAll := func() { cw.Close(); sw.Close() }
+	d := hub.GoAll(
+		func() { gmEndpoint(hub, &res.GM, gmtls.Server(sw, scfg), send, closeAll) },
+		func() {
+			res.PeerPanic = hx.Try(func() { res.PeerErr = client(cw) })
+			cw.Close()
+		})
+	<-d[0]
+	<-d[1]
+	res.Stalled = hub.Stalled
+	if res.GM.Panic != nil {
+		_, res.Spin = res.GM.Panic.Val.(wire.Spin)
+	}
+	return res
+}
